@@ -17,6 +17,7 @@ import Driver.C06
 import Driver.C17
 import Driver.C02
 import Driver.C15
+import Driver.C04
 open AITB
 
 def handleLine (line : String) : String :=
@@ -42,6 +43,7 @@ def handleLine (line : String) : String :=
   | "C17" :: rest => DrvC17.handle rest
   | "C02" :: rest => DrvC02.handle rest
   | "C15" :: rest => DrvC15.handle rest
+  | "C04" :: rest => DrvC04.handle rest
   | _ => "bad-op"
 
 partial def loop (h : IO.FS.Stream) (out : IO.FS.Stream) : IO Unit := do
